@@ -5,8 +5,8 @@ From AV Require Import Base.Prelude Model.Transport.
 (* Part 2: the hand model *)
 
 Ltac unfold_model :=
-  unfold dispatch, on_connmsg, on_kexmsg, on_authmsg, on_service_request, on_service_accept, on_ext_info,
-         on_kexinit, on_newkeys, on_userauth_request, on_userauth_failure, on_userauth_success, on_banner,
+  unfold dispatch_g, on_connmsg_g, on_kexmsg, on_authmsg, on_service_request, on_service_accept, on_ext_info,
+         on_kexinit_g, on_newkeys, on_userauth_request, on_userauth_failure, on_userauth_success_g, on_banner,
          try_next_auth, send_userauth_failure, send_userauth_success, send_newkeys, send_kexinit, unimpl,
          fatal, abort, send_deferred, send_packet, emit.
 
@@ -75,13 +75,13 @@ Definition inv_rseq (s : st) : Prop :=
 Lemma run_tasks_closed_id : forall n c, closed c = true -> run_tasks n c = c.
 Proof. destruct n; intros c H; simpl; [reflexivity|]. rewrite H. reflexivity. Qed.
 
-Lemma step_inv_rseq0 fixed fixk s e : inv_rseq s -> inv_rseq (step fixed fixk s e).
+Lemma step_inv_rseq0 fixed fixk s e : inv_rseq s -> inv_rseq (step_g fixed fixk s e).
 Proof.
-  intros H. destruct e as [|t cls|]; cbn [step].
+  intros H. destruct e as [|t cls|]; cbn [step_g].
   - destruct (closed (cn s)) eqn:Ec; [exact H|]. exact H.
-  - unfold recv.
+  - unfold recv_g.
     destruct (closed (cn s)) eqn:Ec; [exact H|].
-    set (c1 := dispatch fixed fixk _ _ t cls).
+    set (c1 := dispatch_g fixed fixk _ _ t cls).
     destruct (closed c1) eqn:Ec1.
     + intros _ _ Hc. simpl in Hc. congruence.
     + unfold finish_recv.
@@ -96,19 +96,19 @@ Proof.
     + apply H; auto.
 Qed.
 
-Lemma step_inv_rseq fixed fixk s e : inv_rseq s -> inv_rseq (step fixed fixk (begin_step s) e).
+Lemma step_inv_rseq fixed fixk s e : inv_rseq s -> inv_rseq (step_g fixed fixk (begin_step s) e).
 Proof. intros H. apply step_inv_rseq0. exact H. Qed.
 
-Lemma run_inv_rseq fixed fixk : forall l s, inv_rseq s -> inv_rseq (run fixed fixk s l).
+Lemma run_inv_rseq fixed fixk : forall l s, inv_rseq s -> inv_rseq (run_g fixed fixk s l).
 Proof.
   induction l as [|e r IH]; intros s H; simpl; [exact H|]. apply IH.
-  unfold step_booked. pose proof (step_inv_rseq fixed fixk s e H) as H1.
-  destruct (note_all_frame (map fst (olog (cn (step fixed fixk (begin_step s) e)))) (step fixed fixk (begin_step s) e)) as (A & B & C & D).
+  unfold step_booked_g. pose proof (step_inv_rseq fixed fixk s e H) as H1.
+  destruct (note_all_frame (map fst (olog (cn (step_g fixed fixk (begin_step s) e)))) (step_g fixed fixk (begin_step s) e)) as (A & B & C & D).
   unfold inv_rseq in *. rewrite A, B, C. exact H1.
 Qed.
 
 Lemma recv_seq_reset_all_runs fixed fixk server l :
-  let s := run fixed fixk (init server) l in
+  let s := run_g fixed fixk (init server) l in
   last_recv s = 21 -> strict (cn s) = true -> closed (cn s) = false -> recv_seq s = 0.
 Proof. apply run_inv_rseq. intros H. simpl in H. discriminate. Qed.
 
@@ -165,7 +165,7 @@ Proof. induction l as [|t r IH]; intros c; simpl; [reflexivity|]. rewrite IH. un
 (* the peer's NEWKEYS can only be accepted after our own NEWKEYS went out (which fixes the session id) *)
 Definition pre_sid (c : conn) : Prop := sid c = false -> next_recv c = false /\ recv_enc c = false.
 
-Lemma dispatch_pre_sid fixed fixk c seq t cls : pre_sid c -> pre_sid (dispatch fixed fixk c seq t cls).
+Lemma dispatch_pre_sid fixed fixk c seq t cls : pre_sid c -> pre_sid (dispatch_g fixed fixk c seq t cls).
 Proof.
   unfold pre_sid. intros H.
   unfold_model; cbv zeta; crush_ifs; autorewrite with frame; cbn; autorewrite with frame; cbn;
@@ -215,7 +215,7 @@ Ltac zb :=
 
 Lemma dispatch_clear fixed fixk c seq t cls :
   recv_enc c = false -> auth c = 0 -> can_recv_ext c = false -> pending c = [] ->
-  let c' := dispatch fixed fixk c seq t cls in
+  let c' := dispatch_g fixed fixk c seq t cls in
   closed c' = true \/
   ((recv_enc c' = false -> auth c' = 0 /\ can_recv_ext c' = false /\ pending c' = []) /\
    (strict c = true -> allowed_clear t) /\
@@ -239,14 +239,14 @@ Qed.
 
 
 Lemma dispatch_strict_flip fixed fixk c seq t cls :
-  strict c = false -> strict (dispatch fixed fixk c seq t cls) = true -> sid c = false.
+  strict c = false -> strict (dispatch_g fixed fixk c seq t cls) = true -> sid c = false.
 Proof.
   intros Hs. unfold_model; cbv zeta; crush_ifs; autorewrite with frame; cbn; autorewrite with frame; cbn;
     rewrite ?Hs; try (intros D; discriminate D); intros _; zb; assumption.
 Qed.
 
 Lemma dispatch_recv_enc_mono fixed fixk c seq t cls :
-  recv_enc c = true -> recv_enc (dispatch fixed fixk c seq t cls) = true.
+  recv_enc c = true -> recv_enc (dispatch_g fixed fixk c seq t cls) = true.
 Proof.
   intros Hr. unfold_model; cbv zeta; crush_ifs; autorewrite with frame; cbn; autorewrite with frame; cbn;
     rewrite ?Hr; reflexivity.
@@ -272,11 +272,11 @@ Qed.
 Lemma pre_sid_fatal c : pre_sid c -> pre_sid (fatal c).
 Proof. unfold pre_sid, fatal, emit. cbn. auto. Qed.
 
-Lemma inv_clear_recv fixed fixk s t cls : inv_clear s -> inv_clear (recv fixed fixk s t cls).
+Lemma inv_clear_recv fixed fixk s t cls : inv_clear s -> inv_clear (recv_g fixed fixk s t cls).
 Proof.
-  intros [Isid Ipre Istr]. unfold recv.
+  intros [Isid Ipre Istr]. unfold recv_g.
   destruct (closed (cn s)) eqn:Ec; [split; [exact Isid | intros _ D; congruence | intros _ D; congruence]|].
-  set (c1 := dispatch fixed fixk (cn s) (recv_seq s) t cls).
+  set (c1 := dispatch_g fixed fixk (cn s) (recv_seq s) t cls).
   assert (Hsid1 : pre_sid c1) by (apply dispatch_pre_sid; exact Isid).
   destruct (closed c1) eqn:Ec1.
   { split; cbn [with_conn cn recv_seq clear_acc]; [exact Hsid1 | intros _ D; congruence | intros _ D; congruence]. }
@@ -337,9 +337,9 @@ Qed.
 Lemma run_tasks_closed_mono : forall n c, closed c = true -> closed (run_tasks n c) = true.
 Proof. intros n c H. rewrite run_tasks_closed_id; assumption. Qed.
 
-Lemma inv_clear_step fixed fixk s e : inv_clear s -> inv_clear (step fixed fixk s e).
+Lemma inv_clear_step fixed fixk s e : inv_clear s -> inv_clear (step_g fixed fixk s e).
 Proof.
-  intros I. destruct e as [|t cls|]; cbn [step].
+  intros I. destruct e as [|t cls|]; cbn [step_g].
   - destruct (closed (cn s)) eqn:Ec; [exact I|].
     destruct I as [Isid Ipre Istr]. split; cbn.
     + exact Isid.
@@ -369,17 +369,17 @@ Proof.
   split; rewrite ?E1, ?E2, ?E4; assumption.
 Qed.
 
-Lemma run_inv_clear fixed fixk : forall l s, inv_clear s -> inv_clear (run fixed fixk s l).
+Lemma run_inv_clear fixed fixk : forall l s, inv_clear s -> inv_clear (run_g fixed fixk s l).
 Proof.
   induction l as [|e r IH]; intros s I; simpl; [exact I|]. apply IH.
-  unfold step_booked. apply inv_clear_note, inv_clear_step, inv_clear_begin. exact I.
+  unfold step_booked_g. apply inv_clear_note, inv_clear_step, inv_clear_begin. exact I.
 Qed.
 
 (* In every run: if strict KEX was negotiated and the connection is still up, the packets accepted while
    receiving in clear were the KEXINIT first and then only exchange-specific messages and NEWKEYS; and as
    long as the connection receives in clear their number equals the receive sequence number. *)
 Lemma strict_initial_all_runs fixed fixk server l :
-  let s := run fixed fixk (init server) l in
+  let s := run_g fixed fixk (init server) l in
   closed (cn s) = false ->
   (strict (cn s) = true -> Forall allowed_clear (clear_acc s) /\ exists r, clear_acc s = 20 :: r) /\
   (recv_enc (cn s) = false -> recv_seq s = Z.of_nat (List.length (clear_acc s))).
@@ -391,9 +391,9 @@ Qed.
 
 (* ---- the phase gate, in every state ------------------------------------------------------------------------ *)
 Lemma gate_prekex_fatal fixed fixk c seq t cls :
-  recv_enc c = false -> auth c = 0 -> 49 < t -> closed (dispatch fixed fixk c seq t cls) = true.
+  recv_enc c = false -> auth c = 0 -> 49 < t -> closed (dispatch_g fixed fixk c seq t cls) = true.
 Proof.
-  intros Hr Ha Ht. unfold dispatch. rewrite Hr, Ha. cbn [negb andb Z.eqb].
+  intros Hr Ha Ht. unfold dispatch_g. rewrite Hr, Ha. cbn [negb andb Z.eqb].
   destruct ((30 <=? t) && (t <=? 49)) eqn:E1; [zb; lia|].
   destruct (strict c && true && (2 <=? t) && (t <=? 4)) eqn:E0; [reflexivity|].
   destruct ((60 <=? t) && (t <=? 79)) eqn:E2; [reflexivity|].
@@ -401,9 +401,9 @@ Proof.
 Qed.
 
 Lemma gate_preauth_fatal fixed fixk c seq t cls :
-  auth_complete c = false -> 79 < t -> closed (dispatch fixed fixk c seq t cls) = true.
+  auth_complete c = false -> 79 < t -> closed (dispatch_g fixed fixk c seq t cls) = true.
 Proof.
-  intros Hr Ht. unfold dispatch. rewrite Hr. cbn [negb andb Z.eqb].
+  intros Hr Ht. unfold dispatch_g. rewrite Hr. cbn [negb andb Z.eqb].
   destruct ((30 <=? t) && (t <=? 49)) eqn:E1; [zb; lia|].
   destruct (strict c && negb (recv_enc c) && (2 <=? t) && (t <=? 4)) eqn:E0; [reflexivity|].
   destruct ((60 <=? t) && (t <=? 79)) eqn:E2; [zb; lia|].
@@ -415,7 +415,7 @@ Qed.
 Lemma role_foreign_fatal fixed fixk c seq t cls :
   (srv c = false /\ (t = 5 \/ t = 30 \/ t = 50)) \/
   (srv c = true /\ (t = 6 \/ t = 31 \/ t = 51 \/ t = 52 \/ t = 53)) ->
-  closed (dispatch fixed fixk c seq t cls) = true.
+  closed (dispatch_g fixed fixk c seq t cls) = true.
 Proof.
   intros [[Hs Ht]|[Hs Ht]]; repeat (destruct Ht as [Ht|Ht]); subst t;
     unfold_model; cbv zeta; rewrite ?Hs; cbn; crush_ifs; autorewrite with frame; cbn; rewrite ?Hs in *; cbn in *;
@@ -430,17 +430,17 @@ Definition unsolicited_witness : list event :=
   [EvVersion; EvRecv 20 1; EvSettle; EvRecv 31 0; EvSettle; EvRecv 21 0; EvSettle; EvRecv 6 0; EvRecv 52 0; EvSettle].
 
 Lemma success_unsolicited_cur fixk :
-  let s := run false fixk (init false) unsolicited_witness in
+  let s := run_g false fixk (init false) unsolicited_witness in
   auth_complete (cn s) = true /\ closed (cn s) = false /\ unsolicited (cn s) = true.
 Proof. destruct fixk; vm_compute; auto. Qed.
 
 (* the same run against the repaired gate ends the connection instead *)
 Lemma success_unsolicited_fixed_witness fixk :
-  closed (cn (run true fixk (init false) unsolicited_witness)) = true.
+  closed (cn (run_g true fixk (init false) unsolicited_witness)) = true.
 Proof. destruct fixk; vm_compute; reflexivity. Qed.
 
 Lemma dispatch_unsolicited_fixed fixk c seq t cls :
-  unsolicited c = false -> unsolicited (dispatch true fixk c seq t cls) = false.
+  unsolicited c = false -> unsolicited (dispatch_g true fixk c seq t cls) = false.
 Proof.
   intros Hu. unfold_model; cbv zeta; crush_ifs; autorewrite with frame; cbn; autorewrite with frame; cbn;
     rewrite ?Hu; try reflexivity.
@@ -457,22 +457,22 @@ Proof.
 Qed.
 
 Lemma step_unsolicited_fixed fixk s e :
-  unsolicited (cn s) = false -> unsolicited (cn (step true fixk s e)) = false.
+  unsolicited (cn s) = false -> unsolicited (cn (step_g true fixk s e)) = false.
 Proof.
-  intros H. destruct e as [|t cls|]; cbn [step].
+  intros H. destruct e as [|t cls|]; cbn [step_g].
   - destruct (closed (cn s)); [exact H|]. cbn. exact H.
-  - unfold recv. destruct (closed (cn s)); [exact H|].
+  - unfold recv_g. destruct (closed (cn s)); [exact H|].
     pose proof (dispatch_unsolicited_fixed fixk (cn s) (recv_seq s) t cls H) as H1.
-    destruct (closed (dispatch true fixk (cn s) (recv_seq s) t cls)); [exact H1|].
+    destruct (closed (dispatch_g true fixk (cn s) (recv_seq s) t cls)); [exact H1|].
     unfold finish_recv. destruct (79 <? t); crush_ifs; cbn; exact H1.
   - cbn [with_conn cn]. rewrite run_tasks_unsolicited. exact H.
 Qed.
 
 Lemma success_outstanding_fixed_all_runs fixk : forall l s,
-  unsolicited (cn s) = false -> unsolicited (cn (run true fixk s l)) = false.
+  unsolicited (cn s) = false -> unsolicited (cn (run_g true fixk s l)) = false.
 Proof.
-  induction l as [|e r IH]; intros s H; simpl; [exact H|]. apply IH. unfold step_booked.
-  destruct (note_all_frame (map fst (olog (cn (step true fixk (begin_step s) e)))) (step true fixk (begin_step s) e)) as (A & _).
+  induction l as [|e r IH]; intros s H; simpl; [exact H|]. apply IH. unfold step_booked_g.
+  destruct (note_all_frame (map fst (olog (cn (step_g true fixk (begin_step s) e)))) (step_g true fixk (begin_step s) e)) as (A & _).
   rewrite A. apply step_unsolicited_fixed. cbn. exact H.
 Qed.
 
@@ -481,7 +481,7 @@ Definition post_ok (u : Z) (c : conn) : Prop :=
   srv c = true /\ auth_complete c = true /\ pending c = [] /\ auth c = 0 /\ authed c = u.
 
 Lemma dispatch_post_ok fixed fixk u c seq t cls :
-  post_ok u c -> closed (dispatch fixed fixk c seq t cls) = true \/ post_ok u (dispatch fixed fixk c seq t cls).
+  post_ok u c -> closed (dispatch_g fixed fixk c seq t cls) = true \/ post_ok u (dispatch_g fixed fixk c seq t cls).
 Proof.
   intros (H1 & H2 & H3 & H4 & H5). unfold post_ok.
   unfold_model; cbv zeta; rewrite ?H1, ?H2, ?H3, ?H4; cbn; crush_ifs; autorewrite with frame; cbn;
@@ -492,28 +492,28 @@ Qed.
 
 Definition post_inv (u : Z) (s : st) : Prop := closed (cn s) = true \/ post_ok u (cn s).
 
-Lemma step_post_inv fixed fixk u s e : post_inv u s -> post_inv u (step fixed fixk s e).
+Lemma step_post_inv fixed fixk u s e : post_inv u s -> post_inv u (step_g fixed fixk s e).
 Proof.
-  intros [Hc|Hp]; destruct e as [|t cls|]; cbn [step].
+  intros [Hc|Hp]; destruct e as [|t cls|]; cbn [step_g].
   - rewrite Hc. left. exact Hc.
-  - unfold recv. rewrite Hc. left. exact Hc.
+  - unfold recv_g. rewrite Hc. left. exact Hc.
   - left. cbn [with_conn cn]. rewrite run_tasks_closed_id; exact Hc.
   - destruct (closed (cn s)) eqn:Ec; [left; exact Ec|]. right. destruct Hp as (H1 & H2 & H3 & H4 & H5).
     unfold post_ok. cbn. auto.
-  - unfold recv. destruct (closed (cn s)) eqn:Ec; [left; exact Ec|].
+  - unfold recv_g. destruct (closed (cn s)) eqn:Ec; [left; exact Ec|].
     destruct (dispatch_post_ok fixed fixk u (cn s) (recv_seq s) t cls Hp) as [D|D].
     + rewrite D. left. exact D.
-    + destruct (closed (dispatch fixed fixk (cn s) (recv_seq s) t cls)) eqn:Ec1; [left; exact Ec1|].
+    + destruct (closed (dispatch_g fixed fixk (cn s) (recv_seq s) t cls)) eqn:Ec1; [left; exact Ec1|].
       unfold finish_recv. crush_ifs; cbn; try (left; reflexivity); right;
         destruct D as (H1 & H2 & H3 & H4 & H5); unfold post_ok; cbn; auto.
   - right. cbn [with_conn cn]. destruct Hp as (H1 & H2 & H3 & H4 & H5). rewrite run_tasks_nopending by exact H3.
     unfold post_ok. auto.
 Qed.
 
-Lemma run_post_inv fixed fixk u : forall l s, post_inv u s -> post_inv u (run fixed fixk s l).
+Lemma run_post_inv fixed fixk u : forall l s, post_inv u s -> post_inv u (run_g fixed fixk s l).
 Proof.
-  induction l as [|e r IH]; intros s H; simpl; [exact H|]. apply IH. unfold step_booked.
-  destruct (note_all_frame (map fst (olog (cn (step fixed fixk (begin_step s) e)))) (step fixed fixk (begin_step s) e)) as (A & _).
+  induction l as [|e r IH]; intros s H; simpl; [exact H|]. apply IH. unfold step_booked_g.
+  destruct (note_all_frame (map fst (olog (cn (step_g fixed fixk (begin_step s) e)))) (step_g fixed fixk (begin_step s) e)) as (A & _).
   unfold post_inv. rewrite A. apply step_post_inv.
   destruct H as [H|(H1 & H2 & H3 & H4 & H5)]; [left; exact H|right; unfold post_ok; cbn; auto].
 Qed.
@@ -523,7 +523,7 @@ Definition server_login : list event :=
   [EvVersion; EvRecv 20 1; EvSettle; EvRecv 30 0; EvSettle; EvRecv 21 0; EvSettle; EvRecv 5 0; EvSettle;
    EvRecv 50 100; EvSettle; EvRecv 50 111; EvSettle].
 
-Lemma server_login_post_ok fixed fixk : post_ok 1 (cn (run fixed fixk (init true) server_login)).
+Lemma server_login_post_ok fixed fixk : post_ok 1 (cn (run_g fixed fixk (init true) server_login)).
 Proof. destruct fixed, fixk; vm_compute; auto. Qed.
 
 (* ---- KEXINIT between our NEWKEYS and the peer's, strict KEX not negotiated ---------------------------------- *)
@@ -532,17 +532,17 @@ Definition early_kexinit_witness : list event :=
   [EvVersion; EvRecv 20 0; EvSettle; EvRecv 31 0; EvSettle].
 
 Lemma early_kexinit_cur fixed :
-  let s := run fixed false (init false) early_kexinit_witness in
+  let s := run_g fixed false (init false) early_kexinit_witness in
   (* our NEWKEYS is out, the peer's is still awaited, nothing is received encrypted yet *)
   next_recv (cn s) = true /\ recv_enc (cn s) = false /\ kex (cn s) = false /\ closed (cn s) = false /\
-  let s' := step_booked fixed false s (EvRecv 20 0) in
+  let s' := step_booked_g fixed false s (EvRecv 20 0) in
   closed (cn s') = false /\ kex (cn s') = true /\ map fst (olog (cn s')) = [20; 30].
 Proof. destruct fixed; vm_compute; repeat split; reflexivity. Qed.
 
 (* with the repair the same KEXINIT ends the connection; in EVERY state in which the peer's NEWKEYS is awaited *)
 Lemma early_kexinit_fixed fixed c seq cls :
-  next_recv c = true -> closed (dispatch fixed true c seq 20 cls) = true.
+  next_recv c = true -> closed (dispatch_g fixed true c seq 20 cls) = true.
 Proof.
-  intros Hn. unfold dispatch. cbn [Z.leb Z.compare andb Z.ltb Z.eqb]. rewrite !andb_false_r.
-  cbn. unfold on_connmsg. cbn. unfold on_kexinit. rewrite Hn. rewrite orb_true_r. reflexivity.
+  intros Hn. unfold dispatch_g. cbn [Z.leb Z.compare andb Z.ltb Z.eqb]. rewrite !andb_false_r.
+  cbn. unfold on_connmsg_g. cbn. unfold on_kexinit_g. rewrite Hn. rewrite orb_true_r. reflexivity.
 Qed.
